@@ -60,6 +60,7 @@ def showRes (op : Op) (r : Res) (s : M) : String :=
 structure Mon where
   allocs : AMap Nat Nat := []     -- address → times it was handed out (seen in `held`)
   prevHeld : List (Nat × Nat) := []
+  macs : AMap Nat Nat := []       -- session → MAC it was created with (from the create ops that succeeded)
 
 def field (impl key : String) : String :=
   match (splitTokens impl).find? (fun t => t.startsWith (key ++ "=")) with
@@ -84,35 +85,60 @@ def parsePairsSN (s : String) : List (Nat × Nat) :=   -- "s1:2"
 def parseNames (s : String) : List Nat :=
   if s == "-" || s.isEmpty then [] else (s.splitOn ",").filterMap (parseTagged 's')
 
-def monitor (mn : Mon) (impl : String) : Mon × List (String × String × String) :=
+/-- a verdict with the session / address it is about (used to attribute it to a recorded finding) -/
+structure V where
+  name : String
+  detail : String
+  sess : Option Nat := none
+  addr : Option Nat := none
+
+def monitor (mn : Mon) (op : Op) (impl : String) : Mon × List V :=
   if !(impl.contains "rel=") then (mn, []) else
   let rel := parsePairsNN (field impl "rel")
   let held := parsePairsNS (field impl "held")
   let sess := parseNames (field impl "sess")
   let byip := parsePairsNS (field impl "byip")
   let ended := parsePairsSN (field impl "ended")
+  let word := ((splitTokens impl).head?).getD ""
   -- an address newly present in `held` (or handed to a different session) was allocated once more
   let allocs := held.foldl (fun al (a, n) =>
       if mn.prevHeld.contains (a, n) then al else SubMgr.bump al a) mn.allocs
+  let macs := match op with
+    | .create n m => if word == "ok" then AMap.insert mn.macs n m else mn.macs
+    | _ => mn.macs
   let v1 := rel.filterMap fun (a, c) =>
     if c > SubMgr.count allocs a then
-      some ("double-release", "none", s!"address {a} was released {c} times but handed out {SubMgr.count allocs a} times")
+      some { name := "double-release", detail := s!"address {a} was released {c} times but handed out {SubMgr.count allocs a} times", addr := some a : V }
     else none
   let v2 := ended.filterMap fun (n, c) =>
-    if c > 1 then some ("double-end", "none", s!"session s{n} ended {c} times") else none
+    if c > 1 then some { name := "double-end", detail := s!"session s{n} ended {c} times", sess := some n : V } else none
   let v3 := ended.foldl (fun acc (n, _) =>
     acc ++
-    (if sess.contains n then [("residue", "none", s!"s{n} ended but is still in the session table")] else []) ++
-    (if byip.any (·.2 == n) then [("residue", "none", s!"s{n} ended but is still indexed by address")] else [])) []
+    (if sess.contains n then [{ name := "residue", detail := s!"s{n} ended but is still in the session table", sess := some n : V }] else []) ++
+    (if byip.any (·.2 == n) then [{ name := "residue", detail := s!"s{n} ended but is still indexed by address", sess := some n : V }] else []) ++
+    (held.filterMap fun (a, n') => if n' == n then
+        some { name := "residue", detail := s!"s{n} ended but address {a} is still allocated to it", sess := some n, addr := some a : V } else none)) []
   let v4 := byip.filterMap fun (a, n) =>
     match held.find? (·.1 == a) with
-    | some (_, n') => if n' ≠ n then some ("index-mismatch", "none", s!"address {a} is indexed to s{n} but held by s{n'}") else none
+    | some (_, n') => if n' ≠ n then some { name := "index-mismatch", detail := s!"address {a} is indexed to s{n} but held by s{n'}", sess := some n, addr := some a : V } else none
     | none => none
-  ({ allocs := allocs, prevHeld := held }, v1 ++ v2 ++ v3 ++ v4)
+  -- a new session is refused for a MAC that no LIVE session has: an ended session still occupies the MAC index
+  let v5 := match op with
+    | .create _ m =>
+      if word == "exists" && !(sess.any fun n => AMap.lookup mn.macs n == some m) then
+        [{ name := "residue", detail := s!"a new session for m{m} is refused although no live session has that MAC (an ended session still occupies the MAC index)" : V }]
+      else []
+    | _ => []
+  ({ allocs := allocs, prevHeld := held, macs := macs }, v1 ++ v2 ++ v3 ++ v4 ++ v5)
 
 structure St where
   model : Option M := none
   mon : Mon := {}
+  /-- sessions that were given a second address (KF-submgr-reassign-leak) / while their termination was in
+      progress (KF-submgr-assign-race), with the addresses involved -/
+  reassigned : List Nat := []
+  raced : List Nat := []
+  tainted : List Nat := []
 
 def step (st : St) (toks : List String) (impl : String) : St × LineResult :=
   match toks with
@@ -132,8 +158,30 @@ where
   known (m : M) (n : Nat) : Bool := (AMap.lookup m.sessions n).isSome || (AMap.lookup m.ended n).isSome
   go (st : St) (m : M) (op : Op) (impl : String) : St × LineResult :=
     let (m', r) := SubMgr.step m op
-    let (mon', vs) := monitor st.mon impl
-    ({ model := some m', mon := mon' }, { modelObs := showRes op r m', viols := vs })
+    let (mon', vs) := monitor st.mon op impl
+    -- exclusion clauses of the two recorded findings: decided on the MODEL state before the op
+    let st1 := match op with
+      | .assign n =>
+        if SubMgr.hasAddr m n then
+          let parkedNow := List.any m.calls (fun (p : Nat × Nat × Nat) => p.2.1 == n)
+          let own := fun (mm : M) => (List.filter (fun (p : Nat × Nat) => p.2 == n) mm.owner).map (fun (p : Nat × Nat) => p.1)
+          let addrs := own m ++ own m'
+          { st with reassigned := if parkedNow then st.reassigned else n :: st.reassigned,
+                    raced := if parkedNow then n :: st.raced else st.raced,
+                    tainted := addrs ++ st.tainted }
+        else st
+      | _ => st
+    let clause := fun (v : V) =>
+      let bySess := match v.sess with
+        | some n => if st1.raced.contains n then "KF-submgr-assign-race"
+                    else if st1.reassigned.contains n then "KF-submgr-reassign-leak" else "none"
+        | none => "none"
+      if bySess != "none" then bySess else
+      match v.addr with
+      | some a => if st1.tainted.contains a then (if st1.raced.isEmpty then "KF-submgr-reassign-leak" else "KF-submgr-assign-race") else "none"
+      | none => "none"
+    ({ st1 with model := some m', mon := mon' },
+     { modelObs := showRes op r m', viols := vs.map fun v => (v.name, clause v, v.detail) })
 
 def component : Component := { σ := St, init := {}, step := step }
 
